@@ -261,6 +261,9 @@ impl Property for C13 {
             Err(_) => return Outcome::reject("set_mathml failed"),
         };
         let ids = ids_of_mathml(&canon);
+        // (observation hook, see C04: text dropped together with a repeated optional word -- with markup between the
+        // words the repetition test of speech.rs fires in one of the two renderings only)
+        let dropped_before = libmathcat::speech::VERIF_REPETITIVE_PREFIX_DROPPED.with(|c| c.get());
         let plain = match api::speech() {
             Ok(s) => s,
             Err(_) => return Outcome::reject("speech failed with TTS=None (C15)"),
@@ -278,7 +281,9 @@ impl Property for C13 {
             Err(Fail::Panic(_)) => return Outcome::reject("speech panic with engine (C08)"),
         };
         let _ = api::set_pref("TTS", "None");
+        let prefix_dropped = libmathcat::speech::VERIF_REPETITIVE_PREFIX_DROPPED.with(|c| c.get()) > dropped_before;
         for (s, d) in judge_markup(&case.engine, &speech, &plain, &ids, bookmark) {
+            let s = if prefix_dropped && s.ends_with(":words-differ") { "words-differ:is_repetitive-drops-text-before-optional-word".to_string() } else { s };
             viols.push((s, format!("{}\nprefs: {:?}\nmathml: {}\n{}: {}\nNone: {}", d, case.prefs, xml, case.engine, speech, plain)));
         }
         // class histogram: tag kinds provoked
